@@ -23,7 +23,8 @@ from mc.battery import Exc, call
 
 MOD = 'checks.c10_resolve'
 KINDS = ('F', 'DMM', 'DFM')
-CLASSES = ('CR-merge', 'CR-conflict', 'CR-error', 'CRarity', 'P', 'X')
+CLASSES = ('CR-merge', 'CR-shared', 'CR-conflict', 'CR-error', 'CRarity', 'P',
+           'X')
 REFSETS = ((), ('plain',), ('bare',), ('weak',), ('xdb',), ('weakxdb',),
            ('plain', 'bare', 'weak', 'xdb'))
 
@@ -39,6 +40,20 @@ def mkdbs(kind, d, base_prep=None):
         st = DS(base=MS('b'), changes=MS('c'))
     elif kind == 'DMF':
         st = DS(base=MS('b'), changes=FS(os.path.join(d, 'Changes.fs')))
+    elif kind in ('HF', 'HFb', 'HBF'):
+        # a wrapper that transforms the records (ZODB's own hex wrapper, the
+        # stand-in for compression / encryption) around a FileStorage, a
+        # FileStorage with a blob directory, and the BlobStorage proxy
+        HS = env.mod('ZODB.tests.hexstorage').HexStorage
+        if kind == 'HF':
+            inner = FS(os.path.join(d, 'Data.fs'))
+        elif kind == 'HFb':
+            inner = FS(os.path.join(d, 'Data.fs'),
+                       blob_dir=os.path.join(d, 'blobs'))
+        else:
+            inner = env.mod('ZODB.blob').BlobStorage(
+                os.path.join(d, 'blobs'), FS(os.path.join(d, 'Data.fs')))
+        st = HS(inner)
     else:
         if base_prep is not None:
             # the history that the writers start from is in the base layer
@@ -70,7 +85,11 @@ def x_class():
 
 
 def make_obj(cls):
-    if cls.startswith('CR-'):
+    if cls == 'CR-shared':
+        o = hclasses.CRS()
+        o.day = hclasses.SHARED_DAY
+        o.mode = 'merge'
+    elif cls.startswith('CR-'):
         o = hclasses.CR()
         o.mode = cls[3:]
     elif cls == 'CRarity':
@@ -249,7 +268,7 @@ def scenario(kind, cls, refset, nwriters, order, prelude='plain',
                 tm.abort()
                 out = 'error:' + type(e).__name__
             outcomes.append(out)
-            resolvable = cls == 'CR-merge'
+            resolvable = cls in ('CR-merge', 'CR-shared')
             if first:
                 if out != 'ok':
                     bad('error', 'first-commit-%s' % out, dict(wit))
@@ -282,6 +301,10 @@ def scenario(kind, cls, refset, nwriters, order, prelude='plain',
                         if st[1] != exp_sem:
                             bad('args', 'references-%s' % nm, dict(
                                 wit, expected=exp_sem, got=st[1]))
+                if cls == 'CR-shared' and hclasses.CRS_SEEN[-1] != (
+                        repr(hclasses.SHARED_DAY),) * 3:
+                    bad('args', 'shared-object', dict(
+                        wit, got=hclasses.CRS_SEEN[-1]))
                 # the writer's copy is a ghost and reads the merged state
                 if obj._p_changed is not None:
                     bad('reread', 'not-a-ghost', dict(
@@ -310,6 +333,11 @@ def scenario(kind, cls, refset, nwriters, order, prelude='plain',
                 if got_refs != want_refs:
                     bad('stored', 'references', dict(
                         wit, expected=want_refs, got=repr(got_refs)[:300]))
+                if cls == 'CR-shared':
+                    r = call(lambda: fo.day)
+                    if r != hclasses.SHARED_DAY:
+                        bad('stored', 'shared-object', dict(
+                            wit, got=repr(r)))
             finally:
                 tmf.abort()
                 cf.close()
@@ -411,7 +439,7 @@ def undo_scenario(kind, cls, refset, shape):
         except Exception as e:      # noqa: B902
             tmu.abort()
             out = 'error:' + type(e).__name__
-        resolvable = cls == 'CR-merge'
+        resolvable = cls in ('CR-merge', 'CR-shared')
         if resolvable:
             expect_v = merged
             if out != 'ok':
@@ -545,7 +573,7 @@ def task(kind, cls, refset, prelude='plain', maxw=3):
             res['cov']['states'] += 1
             res['cov']['transitions'] += nwriters
             res['cov']['evaluations'] += 1
-            if 'conflict' in out or cls == 'CR-merge':
+            if 'conflict' in out or cls in ('CR-merge', 'CR-shared'):
                 res['cov']['distinct_nontrivial'] += 1
             key = '%s%s:%s' % ('' if prelude == 'plain' else prelude + ':',
                                cls, '/'.join(out))
@@ -608,9 +636,18 @@ def run(rep, tier, seed, workers):
             for rs in refsets:
                 tasks.append((MOD, 'task', (kind, cls, rs, 'plain', maxw)))
         tasks.append((MOD, 'seq_task', (kind,)))
-    for kind in ('F', 'DMF'):
+    for kind in ('F', 'DMF', 'HF', 'HBF'):
         for cls in CLASSES:
+            if kind[0] == 'H' and cls == 'X':
+                continue    # (the harness hides X's module by wrapping the
+                #             resolver of the outermost storage)
             tasks.append((MOD, 'undo_task', (kind, cls)))
+    # record-transforming wrappers: the storage that resolves has to be
+    # told how to read the records
+    for kind in ('HF', 'HFb', 'HBF'):
+        for cls in CLASSES[:-1]:
+            for rs in REFSETS[:1] + REFSETS[-1:]:
+                tasks.append((MOD, 'task', (kind, cls, rs, 'plain', maxw)))
     for kind, prelude in PRELUDES:
         for cls in CLASSES:
             for rs in PRELUDE_REFSETS:
